@@ -54,6 +54,14 @@ Definition shard_delete (ids : list uuid) (sh : shardst) : shardst * shard_resp 
     end
   else (sh, None).
 
+(* the parts of the reference spec of C01 the statements speak about:
+   the ids a deletion finds, the store and the ids an update batch produces *)
+Definition known_of (ids : list uuid) (s : store) : list uuid := filter (fun id => st_mem id s) (dedup ids).
+Definition upd_store (sc : schema) (maxsize : N) (ps : list (uuid * doc)) (s : store) : store :=
+  fst (fst (update_go sc maxsize ps s)).
+Definition upd_ids (sc : schema) (maxsize : N) (ps : list (uuid * doc)) (s : store) : list uuid :=
+  snd (fst (update_go sc maxsize ps s)).
+
 Definition fan_update (sc : schema) (maxsize : N) (ps : list (uuid * doc)) (c : collection)
   : collection * list shard_resp :=
   (map (fun sh => fst (shard_update sc maxsize ps sh)) c, map (fun sh => snd (shard_update sc maxsize ps sh)) c).
